@@ -184,6 +184,9 @@ REQUEST_KINDS = [
 
 
 class CaseHooks(EBB3Hooks):
+    fork_undecided = False      # count exactly under a deciding case; never fork
+    unroll = False
+
     """Decides the branch conditions of a primitive from (request kind, reply class)."""
 
     def __init__(self, engine, fn, kind, length, reply):
